@@ -3,6 +3,7 @@ package rules
 import (
 	"fmt"
 	"go/token"
+	"go/types"
 	"strings"
 
 	"bxhlint/core"
@@ -494,6 +495,16 @@ func (c *Ctx) timeoutListInvariant(rRemoval, rEncoding, rAccum string) {
 	}
 	r.Floor(rAccum, "accumulator updates under a lookup", nAcc, 2)
 
+	// R06.9 fold coherence
+	r.Rule("R06.9", "fold coherence: a list that a loop of the executor or the contracts rewrites element by element (acc = step(acc, x) with a string or slice accumulator) is carried from one iteration to the next - the step is applied to the accumulated value, never to the value the accumulator started from; otherwise only the last element's effect survives (removeTimeoutList would keep all but one finished id in the timeout list).")
+	nFold := 0
+	for _, fn := range c.P.ModuleFuncs(true) {
+		pk := core.PkgOf(fn)
+		if pk == "internal/executor" || pk == "internal/executor/contracts" {
+			nFold += c.foldRestarts("R06.9", fn)
+		}
+	}
+	r.Floor("R06.9", "loop-carried list accumulators", nFold, 1)
 }
 
 // timeoutListIdentity: R06.8 (contract side): add/remove of a timeout-list entry name the group record's id and height.
@@ -574,4 +585,93 @@ func (c *Ctx) timeoutUpdSites(stl *ssa.Function) (add, rem []updSite) {
 		}
 	}
 	return
+}
+
+// sameExpr: structural equality of two pure expressions (same value, or the same conversion / load applied
+// to equal operands). go/ssa has no CSE, so `string(val)` written twice is two Convert instructions.
+func sameExpr(a, b ssa.Value, d int) bool {
+	if sameValue(a, b) {
+		return true
+	}
+	if d > 4 {
+		return false
+	}
+	switch x := a.(type) {
+	case *ssa.Convert:
+		y, ok := b.(*ssa.Convert)
+		return ok && x.Type().String() == y.Type().String() && sameExpr(x.X, y.X, d+1)
+	case *ssa.ChangeType:
+		y, ok := b.(*ssa.ChangeType)
+		return ok && sameExpr(x.X, y.X, d+1)
+	}
+	return false
+}
+
+// foldRestarts: loop-carried accumulators (a header phi of string / slice type whose back-edge value is the
+// result of a call, and which is used beyond that call) whose step does not take the accumulator but the
+// value the accumulator started from: every iteration restarts from the initial value, only the last counts.
+// Returns the number of accumulators analysed.
+func (c *Ctx) foldRestarts(rule string, fn *ssa.Function) int {
+	r := c.R
+	n := 0
+	for _, b := range fn.Blocks {
+		for _, in := range b.Instrs {
+			phi, ok := in.(*ssa.Phi)
+			if !ok {
+				break
+			}
+			if len(phi.Edges) != 2 {
+				continue
+			}
+			switch phi.Type().Underlying().(type) {
+			case *types.Slice:
+			case *types.Basic:
+				if phi.Type().Underlying().(*types.Basic).Kind() != types.String {
+					continue
+				}
+			default:
+				continue
+			}
+			for i, e := range phi.Edges {
+				call, ok := e.(*ssa.Call)
+				if !ok || !b.Dominates(call.Block()) {
+					continue
+				}
+				g := core.StaticCallee(call)
+				if g == nil || !c.P.InModule(g) {
+					continue
+				}
+				init := phi.Edges[1-i]
+				takesSameType := false
+				for _, a := range call.Call.Args {
+					if types.Identical(a.Type(), phi.Type()) {
+						takesSameType = true
+					}
+				}
+				if !takesSameType {
+					continue
+				}
+				n++
+				usesAcc, usesInit := false, false
+				for _, a := range call.Call.Args {
+					if core.Mentions(a, func(v ssa.Value) bool { return v == ssa.Value(phi) }) {
+						usesAcc = true
+					}
+					if sameExpr(core.Strip(a), core.Strip(init), 0) {
+						usesInit = true
+					}
+				}
+				key := shortFn(fn) + ": list accumulator folded by " + g.Name() + " is loop-carried"
+				switch {
+				case usesAcc:
+					r.OK(rule, key, c.P.Pos(call.Pos()), "the step takes the loop-carried value")
+				case usesInit:
+					r.Bad(rule, key, c.P.Pos(call.Pos()), "each iteration applies "+g.Name()+" to the value the accumulator started from, not to the accumulated result: the effect of all iterations but the last is discarded")
+				default:
+					n--
+				}
+			}
+		}
+	}
+	return n
 }
